@@ -28,6 +28,9 @@
 #include <dlfcn.h>
 #include <errno.h>
 #include <poll.h>
+#include <fcntl.h>
+#include <sys/stat.h>
+#include <unistd.h>
 #include <sys/socket.h>
 #include <netinet/in.h>
 #include <arpa/inet.h>
@@ -38,6 +41,7 @@
 #include "stream.h"
 #include "component.h"
 #include "conncheck.h"
+#include "discovery.h"
 #include "stun/stunagent.h"
 #include "stun/stunmessage.h"
 #include "stun/usages/bind.h"
@@ -892,6 +896,70 @@ int main (void)
       if (g->alive) { g_object_unref (g->agent); g->alive = 0; g->agent = NULL; }
       total_dispatches += iterate_ready ();
       puts ("ok");
+    }
+    else if (!strcmp (w[0], "res") && n == 2 && (g = find_ag (w[1])) && g->alive) {
+      /* stream ids tagged on the agent's internal containers (for the lifecycle model) */
+      GSList *i;
+      agent_lock (g->agent);
+      printf ("ok streams");
+      for (i = g->agent->streams; i; i = i->next) printf (" %u", ((NiceStream *) i->data)->id);
+      printf (" discovery");
+      for (i = g->agent->discovery_list; i; i = i->next) printf (" %u", ((CandidateDiscovery *) i->data)->stream_id);
+      printf (" refreshes");
+      for (i = g->agent->refresh_list; i; i = i->next) printf (" %u", ((CandidateRefresh *) i->data)->stream_id);
+      printf (" triggered");
+      for (i = g->agent->triggered_check_queue; i; i = i->next) printf (" %u", ((CandidateCheckPair *) i->data)->stream_id);
+      printf (" checklists");
+      for (i = g->agent->streams; i; i = i->next) printf (" %u:%u", ((NiceStream *) i->data)->id, g_slist_length (((NiceStream *) i->data)->conncheck_list));
+      printf (" keepalive %d conncheck %d discoverytimer %d\n", g->agent->keepalive_timer_source != NULL,
+          g->agent->conncheck_timer_source != NULL, g->agent->discovery_timer_source != NULL);
+      agent_unlock (g->agent);
+    }
+    else if (!strcmp (w[0], "sdp") && n == 3) {
+      Ag *a = find_ag (w[1]), *b = find_ag (w[2]);
+      if (a && b && a->alive && b->alive) {
+        gchar *sdp = nice_agent_generate_local_sdp (a->agent);
+        int r = nice_agent_parse_remote_sdp (b->agent, sdp);
+        total_dispatches += iterate_ready ();
+        printf ("ok ret %d len %zu\n", r, sdp ? strlen (sdp) : 0);
+        g_free (sdp);
+      } else puts ("err no agent");
+    }
+    else if (!strcmp (w[0], "forgetrelays") && n == 4 && (g = find_ag (w[1])) && g->alive) {
+      printf ("ok ret %d\n", nice_agent_forget_relays (g->agent, atoi (w[2]), atoi (w[3])));
+      total_dispatches += iterate_ready ();
+    }
+    else if (!strcmp (w[0], "closeasync") && n == 2 && (g = find_ag (w[1])) && g->alive) {
+      nice_agent_close_async (g->agent, NULL, NULL);
+      total_dispatches += iterate_ready ();
+      puts ("ok");
+    }
+    else if (!strcmp (w[0], "selpair") && n == 6 && (g = find_ag (w[1])) && g->alive) {
+      printf ("ok ret %d\n", nice_agent_set_selected_pair (g->agent, atoi (w[2]), atoi (w[3]), w[4], w[5]));
+      total_dispatches += iterate_ready ();
+    }
+    else if (!strcmp (w[0], "detach") && n == 4 && (g = find_ag (w[1])) && g->alive) {
+      printf ("ok ret %d\n", nice_agent_attach_recv (g->agent, atoi (w[2]), atoi (w[3]), ctx, NULL, NULL));
+    }
+    else if (!strcmp (w[0], "getsel") && n == 4 && (g = find_ag (w[1])) && g->alive) {
+      NiceCandidate *l = NULL, *r = NULL;
+      printf ("ok ret %d\n", nice_agent_get_selected_pair (g->agent, atoi (w[2]), atoi (w[3]), &l, &r));
+    }
+    else if (!strcmp (w[0], "leaktest")) { volatile char *x = malloc (77); x[0] = 1; x = NULL; puts ("ok"); }
+    else if (!strcmp (w[0], "fdlist")) {
+      int fd; char path[64], tgt[256];
+      for (fd = 0; fd < 256; fd++) if (fcntl (fd, F_GETFD) != -1) {
+        ssize_t k; snprintf (path, sizeof path, "/proc/self/fd/%d", fd); k = readlink (path, tgt, sizeof tgt - 1);
+        tgt[k > 0 ? k : 0] = 0; printf ("ev fd %d %s\n", fd, tgt);
+      }
+      puts ("ok");
+    }
+    else if (!strcmp (w[0], "fds")) {
+      /* number of open descriptors (leak detection for sockets) */
+      /* sockets only: GLib itself lazily creates eventfds (wakeups, GTask pool) that are not libnice's */
+      int fd, n = 0; struct stat sb;
+      for (fd = 0; fd < 1024; fd++) if (fstat (fd, &sb) == 0 && S_ISSOCK (sb.st_mode)) n++;
+      printf ("ok fds %d\n", n);
     }
     else if (!strcmp (w[0], "drain")) { total_dispatches += iterate_ready (); puts ("ok"); }
     else puts ("err bad-op");
